@@ -39,6 +39,7 @@ CATCH = {
  "C16-r2": (["C16"], ["C16|same-block-in-flight-twice"], False, "C16: op request-then-announce; in-flight monitor made precise"),
  "C17-r2": (["C17"], ["C17|authenticated-as-itself"], True, ""),
  "C18-r2": (["C18"], ["C18|header-differs|other-header-field","C18|wire|hash-changed","C18|spv-sync|block-not-obtained"], True, ""),
+ "C19-r2": (["C19"], ["C19|unspent-set-differs-from-ledger|missing"], True, ""),
  "C20-r2": (["C20"], ["C20|order|peers-held-then-blockchain|network.rs<-network.rs","C20|order|peers-held-then-config|network.rs<-network.rs","C20|deadlock|consensus:blockchain+config+mempool>peers|routing:config+peers>blockchain|…"], True, ""),
  "C20": (["C20"], ["C20|order|wallet-held-then-blockchain|verification_thread.rs<-verification_thread.rs","C20|deadlock|consensus:blockchain+config>wallet|verification:wallet>blockchain"], True, ""),
 }
